@@ -456,7 +456,40 @@ def s4_case(r):
     return [ty, ";".join(enums)] + kv
 
 
-AGGS = [("enumfn", agg_enum_in_fn), ("holder", agg_holder), ("ctor", agg_ctor), ("enum", agg_enum), ("structfn", agg_struct_in_fn)]
+def agg_narrow(r):
+    """methods of a generic impl whose RETURN EXPRESSION may leave the range of T at a narrow instantiation (tiny / short / int):
+    the generic program and its hand-specialised twin must both stop with the range error at the same call, or both go on"""
+    gdefs = ("interface Summing<T> {\n    T part();\n    T total();\n    T scaled(int k);\n    int count();\n};\n"
+             "struct Acc<T> {\n    T a;\n    T b;\n};\n"
+             "impl Summing<T> for Acc<T> {\n    T part() {\n        return self.a + self.b;\n    }\n"
+             "    T total() {\n        return self.part() + self.part();\n    }\n"
+             "    T scaled(int k) {\n        return self.a * k;\n    }\n"
+             "    int count() {\n        return 2;\n    }\n};\n")
+
+    def mono(x):
+        return (gdefs.replace("Summing<T>", M("Summing", [x])).replace("Acc<T>", M("Acc", [x]))
+                .replace("T ", x + " ").replace("(T ", "(" + x + " "))
+    x = r.choice(["tiny", "short", "int", "long"])
+    hi = {"tiny": 127, "short": 32767, "int": 2**31 - 1, "long": 2**40}[x]
+    a_ = r.choice([hi // 2, hi // 3, hi // 4 + 1, 30, hi // 2 + 1])
+    b_ = r.choice([1, 12, hi // 4, hi // 2])
+    if a_ + b_ > hi:
+        b_ = 1
+    g = "    Acc<%s> c;\n    c.a = %d;\n    c.b = %d;\n" % (x, a_, b_)
+    m = "    %s c;\n    c.a = %d;\n    c.b = %d;\n" % (M("Acc", [x]), a_, b_)
+    ops = ["    println(c.part(), c.count());\n"]
+    for _ in range(r.range(2, 4)):
+        k = r.below(3)
+        if k == 0:
+            ops.append("    println(c.scaled(%d));\n" % r.range(1, 5))
+        elif k == 1:
+            ops.append("    println(c.total());\n")
+        else:
+            ops.append("    long w%d = c.scaled(%d);\n    println(w%d);\n" % (len(ops), r.range(2, 5), len(ops)))
+    return gdefs, mono(x), g + "".join(ops), m + "".join(ops), ["narrow<%s>" % x]
+
+
+AGGS = [("narrow", agg_narrow), ("enumfn", agg_enum_in_fn), ("holder", agg_holder), ("ctor", agg_ctor), ("enum", agg_enum), ("structfn", agg_struct_in_fn)]
 
 
 def aggregate_case(r):
